@@ -214,7 +214,12 @@ func (p *sparser) impl() SExpr {
 	}
 	if p.isOp("<==>") {
 		p.next()
-		r := p.cond()
+		var r SExpr
+		if p.isID("forall") || p.isID("exists") {
+			r = p.expr()
+		} else {
+			r = p.cond()
+		}
 		return &SBin{"<==>", l, r}
 	}
 	return l
